@@ -14,7 +14,7 @@ import (
 func init() {
 	register(&Prop{
 		ID:          "C20",
-		Explanation: "Decides the synchronisation discipline (not the schedules): every access to htpasswdMap.users outside the construction set (functions whose receiver is a fresh, unpublished allocation) happens on paths where the map's rwm is held — read or write lock for loads, write lock for stores — by a must-hold lock walk (Lock/RLock gen, Unlock/RUnlock kill, deferred unlock = held to exit); no map reachable through a published htpasswdMap is updated or deleted from outside the construction set, the reload installs a map built locally by createHtpasswdMap, and Validate answers true only by comparing the presented password with the entry it read from users; the address of UserMap.m flows only into atomic.LoadPointer/StorePointer, the stored pointers are addresses of local maps that receive no update after the store, and readers only index; in both loaders the swap is reachable only on paths where every CSV read returned without error (or io.EOF for incremental reads) and, for htpasswd, createHtpasswdMap returned no error. Added during the build: reloads are totally ordered and none is skipped — the watcher package starts exactly one goroutine, file events are received at one site, every received event goes to filterEvent, filterEvent is driven only from the event loop and calls action() synchronously for every selected event (R5, partly shared with C08.R6). Round 3: a reload installs only a non-empty freshly parsed map and the reloaded map is the only basic.Validator implementation (R6). Round 4: the configured paths of the two credential files are never rewritten after loading and flow only to their loaders' constructors, emptiness tests, log lines and a short list of library calls that neither hold the file nor change the option (R7).",
+		Explanation: "Decides the synchronisation discipline (not the schedules): every access to htpasswdMap.users outside the construction set (functions whose receiver is a fresh, unpublished allocation) happens on paths where the map's rwm is held — read or write lock for loads, write lock for stores — by a must-hold lock walk (Lock/RLock gen, Unlock/RUnlock kill, deferred unlock = held to exit); no map reachable through a published htpasswdMap is updated or deleted from outside the construction set, the reload installs a map built locally by createHtpasswdMap, and Validate answers true only by comparing the presented password with the entry it read from users; the address of UserMap.m flows only into atomic.LoadPointer/StorePointer, the stored pointers are addresses of local maps that receive no update after the store, and readers only index; in both loaders the swap is reachable only on paths where every CSV read returned without error (or io.EOF for incremental reads) and, for htpasswd, createHtpasswdMap returned no error. Added during the build: reloads are totally ordered and none is skipped — the watcher package starts exactly one goroutine, file events are received at one site, every received event goes to filterEvent, filterEvent is driven only from the event loop and calls action() synchronously for every selected event (R5, partly shared with C08.R6). Round 3: a reload installs only a non-empty freshly parsed map and the reloaded map is the only basic.Validator implementation (R6). Round 4: the configured paths of the two credential files are never rewritten after loading and flow only to their loaders' constructors, emptiness tests, log lines and a short list of library calls that neither hold the file nor change the option (R7). Round 5: the action handed to the file watcher re-reads the file on every one of its paths (R8).",
 		NotDecided:  "interleavings themselves (this is the necessary discipline a race detector would sample); fsnotify event semantics and file-system atomicity of rewrites.",
 		Run:         runC20,
 	})
@@ -80,6 +80,7 @@ func runC20(c *Ctx) {
 	r.Rule("R5-serial-reloads", "reloads are totally ordered and none is skipped: one goroutine, one receive site for watcher events, every received event handed to filterEvent, action() called synchronously; every selected event reloads (shared with C08.R6)", 5)
 	r.Rule("R6-reload-complete", "a reload installs only a non-empty freshly parsed map; the reloaded map is the only basic.Validator implementation", 2)
 	r.Rule("R7-credential-path-as-configured", "the configured paths of the htpasswd and authenticated-e-mails files are never rewritten after loading and flow only to their loader/watcher constructors (besides emptiness tests and log lines)", 2)
+	r.Rule("R8-reload-action-unconditional", "the action handed to the file watcher re-reads the file on every path (no gate on modification time, size or a previous result), and the file it re-reads is the one being watched", 2)
 	r.Rule("R4-failed-parse-keeps-old", "the swap is reachable only after error-free parsing", 2)
 
 	usersF := c.Field("R1-lock-discipline", "pkg/authentication/basic.htpasswdMap.users")
@@ -313,6 +314,7 @@ func runC20(c *Ctx) {
 	checkHtpasswdValidate(c, rule)
 	runC20R5(c, "R5-serial-reloads")
 	runC20R7(c, "R7-credential-path-as-configured")
+	runC20R8(c, "R8-reload-action-unconditional")
 	runC20R6(c, "R6-reload-complete")
 
 	// ---- R3 ---------------------------------------------------------------------------------
@@ -760,7 +762,7 @@ func runC20R6(c *Ctx, rule string) {
 // the reviewed constructor of its loader (which are covered by R1–R6).
 func runC20R7(c *Ctx, rule string) {
 	consumers := map[string]bool{
-		"main.NewValidator": true, // -> NewUserMap -> WatchFileForUpdates + LoadAuthenticatedEmailsFile
+		"main.NewValidator":                             true, // -> NewUserMap -> WatchFileForUpdates + LoadAuthenticatedEmailsFile
 		"pkg/authentication/basic.NewHTPasswdValidator": true, // -> loadHTPasswdFile + WatchFileForUpdates
 	}
 	for name := range consumers {
@@ -860,5 +862,71 @@ func runC20R7(c *Ctx, rule string) {
 		case !bad:
 			c.R.OK(rule, "path-flow|"+name, "-", sprintf("%d load(s) of Options.%s: emptiness tests, log lines and the loader's constructor only; no store outside option loading", n, name))
 		}
+	}
+}
+
+// runC20R8: the watcher (R5, C08.R6) calls the action for every selected event; the action is where the new contents
+// are read. Every function value handed to WatchFileForUpdates as the action calls, on each of its return paths, a
+// loader — a module function reached with the watched path (or a method of the object that holds it) that opens the
+// file. An action that returns early because the file "looks unchanged" (same or older modification time, same size)
+// keeps the old contents in force after a rollback or a timestamp-preserving copy.
+func runC20R8(c *Ctx, rule string) {
+	watch := c.Fn(rule, "pkg/watcher.WatchFileForUpdates")
+	if watch == nil {
+		return
+	}
+	opens := func(fn *ssa.Function) bool {
+		for g := range c.staticReach(fn, 2) {
+			for _, b := range g.Blocks {
+				for _, in := range b.Instrs {
+					if call, ok := in.(*ssa.Call); ok {
+						if sc := call.Call.StaticCallee(); sc != nil && sc.Pkg != nil && sc.Pkg.Pkg.Path() == "os" && (sc.Name() == "Open" || sc.Name() == "OpenFile" || sc.Name() == "ReadFile") {
+							return true
+						}
+					}
+				}
+			}
+		}
+		return false
+	}
+	n := 0
+	for _, cs := range c.callersOf(watch) {
+		args := cs.Common().Args
+		if len(args) < 3 {
+			continue
+		}
+		var action *ssa.Function
+		switch x := unwrap0(args[2]).(type) {
+		case *ssa.MakeClosure:
+			action, _ = x.Fn.(*ssa.Function)
+		case *ssa.Function:
+			action = x
+		}
+		key := "action|" + fnKey(cs.Parent())
+		if action == nil {
+			c.R.Unknown(rule, key, c.pos(cs), "the watcher's action is not a function literal or named function")
+			continue
+		}
+		n++
+		bad, paths := false, 0
+		c.WalkShallow(rule, action, func(p *walk.Path) {
+			if _, ok := p.Exit.(*ssa.Return); !ok || bad {
+				return
+			}
+			paths++
+			for _, cl := range p.Calls() {
+				if sc := cl.C.StaticCallee(); sc != nil && c.P.InModule(sc) && opens(sc) {
+					return
+				}
+			}
+			bad = true
+			c.bad(rule, key, p.Exit, "the action the file watcher runs can return without re-reading the file: an update that does not pass the gate on this path (an equal or older modification time, for instance) is never loaded", p, p.End())
+		})
+		if !bad {
+			c.R.OK(rule, key, c.pos(cs), sprintf("%d path(s) of the action, each re-reads the file", paths))
+		}
+	}
+	if n == 0 {
+		c.R.Unknown(rule, "action|none", "-", "no caller of WatchFileForUpdates found")
 	}
 }
